@@ -8,7 +8,7 @@ Record estate := mkES {
   es_brackets : list bracket;       (* in index order *)
   es_next_loop : nat;
   es_groups : nat;
-  es_names : list (list N);         (* in emission order; [] = unnamed *)
+  es_names : list (list N);         (* indexed by group id; [] = unnamed *)
 }.
 
 (* bracket_as_ascii *)
@@ -44,6 +44,11 @@ Definition emit_char_set (cs : list N) : R (list insn) :=
 Definition emit_byte_sequence (lb : bool) (bs : list N) : list insn :=
   let ch := chunks16 (S (length bs)) bs in
   map ByteSeq (if lb then rev ch else ch).
+
+(* group_names[id] = name: the table is indexed by the group id, whatever order the groups are emitted in
+   (the contents of a lookbehind are emitted right to left) *)
+Definition set_name (id : nat) (nm : list N) (names : list (list N)) : list (list N) :=
+  set_nth id nm (names ++ repeat [] (S id - length names)).
 
 Section Emit.
   Variable utf16_feature : bool.
@@ -148,7 +153,7 @@ Section Emit.
         Ok (Loop1CharBody mn (match mx with Some v => v | None => USIZE_MAX end) g :: fst rb, snd rb)
     | NCaptureGroup id c nm =>
         let es1 := mkES (es_brackets es) (es_next_loop es) (S (es_groups es))
-                        (es_names es ++ [match nm with Some s => s | None => [] end]) in
+                        (set_name id (match nm with Some s => s | None => [] end) (es_names es)) in
         do rc <- emit_node c (S off) lb es1;
         Ok (BeginCG id :: fst rc ++ [EndCG id], snd rc)
     | NLookaround ng bw sg eg c =>
